@@ -55,6 +55,12 @@ CHECKS["C13"] = dict(
     text="When the record names the element last written or the attribute left by an erase (and by the simulation invariant the terminal really has that rendition and character set in effect), an element with the same attribute and charset is transmitted as its glyph bytes only (also inside strings, also after an erase); moving to the position the cursor is known - and by the invariant really is - at, and requesting the visibility already in effect, transmit nothing.",
     note=VTNOTE, technique="Lean 4 theorems on the encoder model lifted to the terminal by the simulation invariant; repeated-operation sweeps as tie", ref="§5 C13")
 
+CHECKS["C17"] = dict(
+    text="Lean proves: to_string(string(bytes)) = bytes for every byte list (all 256 values, embedded NUL); to_string distributes over concatenation; the output of terminal << string is proved equal to a list of control segments and payload segments whose payload part - every control segment removed - is exactly to_string of the string, for ANY glyph byte values (NUL, ESC, 0x80-0xFF), attributes, charsets and prior state, given zero-padded well-formed UTF-8 glyphs; and for graphic glyphs the reference terminal's own print log carries exactly to_string. Tied to the real string/to_string/terminal by all single bytes, all 65536 UTF-8 glyphs (thorough) and random strings/splits; the oracle re-parses the real wire as control functions interleaved with the expected glyph text. On the pinned tree the check found to_string dropping the UTF-8 glyph U+0000 (fixed).",
+    note="Lean kernel; axioms propext, Classical.choice, Quot.sound; string = List Element (vector semantics assumed); Glyph.Valid excludes ill-formed UTF-8 storage, where writer and to_string genuinely differ (tie-only cases); control-function syntax in the oracle is ECMA-48 §5.4 CSI + SCS + ESC % F.",
+    technique="Lean 4 theorems (induction over strings; segment refinement of the writer) + exhaustive glyph sweeps as tie",
+    ref="§5 C17")
+
 NOT_YET = {}
 
 
